@@ -228,6 +228,9 @@ func (x *Exec) step(st *State) []*State {
 	case *ssa.Alloc:
 		el := i.Type().Underlying().(*types.Pointer).Elem()
 		r := st.newRef("new_" + i.Comment)
+		if !i.Heap {
+			st.privRefs = append(st.privRefs, r)
+		}
 		if at, ok := el.Underlying().(*types.Array); ok && !isByte(at.Elem()) {
 			// pointer to array: the ref names the backing store
 			f.vals[i] = PtrV{ObjAddr{r, el}}
@@ -1248,7 +1251,22 @@ func (x *Exec) havocLoop(st *State, f *Frame, lp int) {
 		}
 	}
 	if dr.all {
-		st.havocAll("loop body with uncontracted call")
+		// private cells the body never writes keep their contents across the loop-head havoc
+		var keep []Term
+		for _, r := range st.privRefs {
+			writtenInBody := false
+			for _, ixs := range dr.at {
+				for _, ix := range ixs {
+					if ix.S == r.S {
+						writtenInBody = true
+					}
+				}
+			}
+			if !writtenInBody {
+				keep = append(keep, r)
+			}
+		}
+		st.havocAllKeeping("loop body with uncontracted call", keep)
 	} else {
 		var fams []string
 		for fam := range dr.written {
@@ -1459,7 +1477,20 @@ func (x *Exec) tryInv(env *Env, cl *Clause) (g Term, msg string) {
 // ---------------------------------------------------------------------------
 // havoc-all
 
-func (st *State) havocAll(why string) {
+func (st *State) havocAll(why string) { st.havocAllKeeping(why, st.privRefs) }
+
+// havocAllKeeping: everything reachable by other code is arbitrary afterwards; the private cells in keep retain
+// their contents (linked lazily, when a family is next used: see State.heap).
+func (st *State) havocAllKeeping(why string, keep []Term) {
+	pre := map[string]*HeapVer{}
+	for k, v := range st.preHavoc {
+		pre[k] = v // families not touched since the previous havoc: their private rows are still those
+	}
+	for k, v := range st.heaps {
+		pre[k] = v
+	}
+	st.preHavoc = pre
+	st.keepRefs = append([]Term(nil), keep...)
 	st.epochN++
 	st.epoch = reg.fresh(fmt.Sprintf("e%d", st.epochN))
 	// after an unknown call nothing about the heap is retained
